@@ -2,7 +2,8 @@
 # usage: run_benign.sh <dir with patch.diff> <label> — applies a property-PRESERVING change in a scratch
 # worktree and runs all five checks (isolated). Every check must exit 0.
 SRC="$1"; L="$2"
-WT=/tmp/bn_wt_$$
+WT=/tmp/bn_wt
+git -C /repo worktree remove --force $WT >/dev/null 2>&1
 git -C /repo worktree add --detach $WT HEAD >/dev/null 2>&1 || exit 2
 if ! git -C $WT apply "$SRC/patch.diff" 2>/dev/null; then echo "$L: patch does not apply to HEAD"; git -C /repo worktree remove --force $WT; exit 0; fi
 mkdir -p /verif/work/seedruns /verif/work/bn-evidence /verif/work/bn-replays
